@@ -15,10 +15,11 @@ CHECKS = {
               "thread-locals or interior-mutability fields, and no call site reachable from keygen / sign / verify / "
               "get_lifetime resolves to an RNG, clock, environment, thread, I/O, atomic or address-exposing operation "
               "(fast_verify builds: shown by constant propagation of message_mut=None from `sign`). In safe Rust that "
-              "makes every result a function of the arguments, which is the whole statement of the property."),
+              "makes every result a function of the arguments, which is the whole statement of the property. The seed argument is "
+              "its first n bytes: a who-may-access rule shows that the wider raw container is touched only by the seed type's own accessors."),
         note=("Trusts rustc's MIR construction and callee resolution, and the internals of allow-listed dependency crates. "
               "HashChain is user-implementable; shown for the six provided hashers."),
-        technique="static effect analysis (who-may-call over resolved MIR call graph, crate-level absence rules, None constant propagation)",
+        technique="static effect analysis (who-may-call / who-may-access over resolved MIR call graph, crate-level absence rules, None constant propagation)",
         design_ref="DESIGN.md section 3 / C09",
     ),
 }
